@@ -10,7 +10,8 @@ def run(ctx, replay=None):
     if ctx.quick:
         mc = [dict(shape="chain", max_env=2)]
         ex = [dict(shape="chain", max_env=1, flags="m,c,o", faults=True),
-              dict(shape="chain", max_env=2, flags="m,c", faults=True)]
+              dict(shape="chain", max_env=2, flags="m,c", faults=True),
+              dict(shape="chain", max_env=1, flags="m,c,e", faults=True, env="EditProfile,Expire,Edit,DeleteArt")]
     else:
         mc = [dict(shape="chain", max_env=3), dict(shape="star", max_env=3)]
         ex = [dict(shape="chain", max_env=2, flags="m,c,o", extra="a", faults=True),
